@@ -1,5 +1,4 @@
-import Emerge.Inst.Regex
-import Emerge.Regex.Follow
+import Emerge.Proofs.Follow
 /-
   C10 — the direct (followpos) pattern-to-DFA construction.
 
@@ -7,88 +6,28 @@ import Emerge.Regex.Follow
   — including n-ary concatenations whose operands can all match the empty string, the case the
   unrepaired code got wrong (`fixed: property=C10` in known_findings.json) — and the tree the second
   mapper set builds for a quantified expression (`quantNode`: copies, options, star) has the language
-  of the quantifier's documented meaning.  The step from followpos sets to the automaton
-  (Glushkov / McNaughton–Yamada correctness) is *not* proved; it is decided per pattern by comparing
-  the automaton with the proved derivative oracle (checks/c10.py).
+  of the quantifier's documented meaning.
+  One half of the correctness of the followpos sets (`C10_paths`): every word of the language of a
+  tree has a marking (each character paired with the position of the leaf that matches it) whose
+  first position is in `firstPos`, whose last position is in `lastPos`, and in which every position
+  is followed by a position of the follow set `computeFollows` computed for it (whatever the map
+  held before) - i.e. every sentence is a path through the position automaton, so the direct route
+  loses no sentence. Positions need not be distinct for this half.
+  NOT proved: the other half (every path spells a sentence - the "local language" property, which
+  needs the positions to be distinct), and that the `while` loop of `ToDFA` is the subset
+  construction over these sets; both are decided per pattern by comparing the automaton with the
+  proved derivative oracle (checks/c10.py).
 -/
 namespace Emerge.Props.C10
 open Emerge Emerge.Regex Emerge.Regex.Follow
 
-mutual
-/-- the language of a syntax tree (positions play no role) -/
-def Node.lang : Node → Lang
-  | .concat xs => langConcat xs
-  | .alt xs => langAlt xs
-  | .star x => Lang.star (Node.lang x)
-  | .empty => Lang.eps
-  | .char c _ => Lang.set [c]
-def langConcat : List Node → Lang
-  | [] => Lang.eps
-  | x :: xs => Lang.cat (Node.lang x) (langConcat xs)
-def langAlt : List Node → Lang
-  | [] => Lang.empty
-  | x :: xs => Lang.union (Node.lang x) (langAlt xs)
-end
-
-theorem cat_nil_iff (a b : Lang) : Lang.cat a b [] ↔ a [] ∧ b [] := by
-  constructor
-  · rintro ⟨u, v, h, hu, hv⟩
-    have : u = [] ∧ v = [] := by simpa using h.symm
-    rw [this.1] at hu; rw [this.2] at hv; exact ⟨hu, hv⟩
-  · rintro ⟨hu, hv⟩; exact ⟨[], [], rfl, hu, hv⟩
-
-mutual
 /-- **nullable is correct**: `nullable(n)` holds iff the sub-expression can match the empty string. -/
-theorem C10_nullable : (n : Node) → (n.nullable = true ↔ Node.lang n [])
-  | .concat xs => by simp only [Node.nullable, Node.lang]; exact allNullable_iff xs
-  | .alt xs => by simp only [Node.nullable, Node.lang]; exact anyNullable_iff xs
-  | .star x => by simp only [Node.nullable, Node.lang, true_iff]; exact Lang.star.nil
-  | .empty => by simp [Node.nullable, Node.lang, Lang.eps]
-  | .char c p => by simp [Node.nullable, Node.lang, Lang.set]
-theorem allNullable_iff : (xs : List Node) → (allNullable xs = true ↔ langConcat xs [])
-  | [] => by simp [allNullable, langConcat, Lang.eps]
-  | x :: xs => by
-    simp only [allNullable, langConcat, Bool.and_eq_true, cat_nil_iff]
-    rw [C10_nullable x, allNullable_iff xs]
-theorem anyNullable_iff : (xs : List Node) → (anyNullable xs = true ↔ langAlt xs [])
-  | [] => by simp [anyNullable, langAlt, Lang.empty]
-  | x :: xs => by
-    simp only [anyNullable, langAlt, Bool.or_eq_true, Lang.union]
-    rw [C10_nullable x, anyNullable_iff xs]
-end
+theorem C10_nullable (n : Node) : n.nullable = true ↔ Node.lang n [] := nullable_iff_lang n
 
 /-- A concatenation is nullable iff all its operands are (the repaired defect, stated outright). -/
-theorem C10_concat_nullable (xs : List Node) : (Node.concat xs).nullable = xs.all Node.nullable := by
-  simp only [Node.nullable]
-  induction xs with
-  | nil => rfl
-  | cons x xs ih => simp [allNullable, ih]
+theorem C10_concat_nullable (xs : List Node) : (Node.concat xs).nullable = xs.all Node.nullable := concat_nullable_all xs
 
-theorem langConcat_append (xs ys : List Node) : langConcat (xs ++ ys) ≃ Lang.cat (langConcat xs) (langConcat ys) := by
-  induction xs with
-  | nil => exact (Lang.cat_eps_left _).symm'
-  | cons a xs ih =>
-    simp only [List.cons_append, langConcat]
-    exact (Lang.cat_congr Lang.Eqv.rfl' ih).trans' (Lang.cat_assoc _ _ _).symm'
-
-theorem langConcat_replicate (n : Node) (k : Nat) : langConcat (List.replicate k n) ≃ Lang.pow (Node.lang n) k := by
-  induction k with
-  | zero => exact Lang.Eqv.rfl'
-  | succ k ih => simp only [List.replicate_succ, langConcat, Lang.pow]; exact Lang.cat_congr Lang.Eqv.rfl' ih
-
-theorem langConcat_replicate_opt (n : Node) (k : Nat) :
-    langConcat (List.replicate k (.alt [.empty, n])) ≃ Lang.upto (Node.lang n) k := by
-  induction k with
-  | zero => exact Lang.Eqv.rfl'
-  | succ k ih =>
-    simp only [List.replicate_succ, langConcat, Lang.upto, Node.lang, langAlt]
-    refine Lang.cat_congr ?_ ih
-    intro w; simp [Lang.union, Lang.empty]
-
-/-- **Quantified sub-expressions**: the tree `quantifyNode` builds — clones for `{n}`, options for
-    `{n,m}`, a star for `{n,}`, `ε | x` for `?`, `x x*` for `+` — has the documented language of the
-    quantifier applied to the operand's language (so patterns that duplicate a sub-expression, and
-    ones that match the empty string such as `a{0}`, are represented correctly). -/
+/-- **Quantified sub-expressions** have the documented language of the quantifier applied to the operand's language. -/
 theorem C10_quantify (n : Node) (q : Quant) :
     Node.lang (quantNode n q) ≃
       (match q with
@@ -96,28 +35,43 @@ theorem C10_quantify (n : Node) (q : Quant) :
        | .star => Lang.star (Node.lang n)
        | .plus => Lang.cat (Node.lang n) (Lang.star (Node.lang n))
        | .rep lo none => Lang.cat (Lang.pow (Node.lang n) lo) (Lang.star (Node.lang n))
-       | .rep lo (some u) => Lang.cat (Lang.pow (Node.lang n) lo) (Lang.upto (Node.lang n) (u - lo))) := by
-  cases q with
-  | opt => intro w; simp [quantNode, Node.lang, langAlt, Lang.union, Lang.empty]
-  | star => exact Lang.Eqv.rfl'
-  | plus =>
-    simp only [quantNode, Node.lang, langConcat]
-    exact Lang.cat_congr Lang.Eqv.rfl' (Lang.cat_eps_right _)
-  | rep lo up =>
-    cases up with
-    | none =>
-      simp only [quantNode, Node.lang]
-      refine (langConcat_append _ _).trans' (Lang.cat_congr (langConcat_replicate n lo) ?_)
-      simp only [langConcat, Node.lang]
-      exact Lang.cat_eps_right _
-    | some u =>
-      simp only [quantNode, Node.lang]
-      exact (langConcat_append _ _).trans' (Lang.cat_congr (langConcat_replicate n lo) (langConcat_replicate_opt n _))
+       | .rep lo (some u) => Lang.cat (Lang.pow (Node.lang n) lo) (Lang.upto (Node.lang n) (u - lo))) := quantify_lang n q
+
+/-- `firstPos` contains the first position of every non-empty marked word -/
+theorem C10_first_sound (n : Node) (a : Nat × Rune) (m : MWord) (h : Node.mlang n (a :: m)) : a.1 ∈ n.firstPos :=
+  first_sound n a m h
+
+/-- `lastPos` contains the last position of every non-empty marked word -/
+theorem C10_last_sound (n : Node) (m : MWord) (a : Nat × Rune) (h : Node.mlang n (m ++ [a])) : a.1 ∈ n.lastPos :=
+  last_sound n m a h
+
+/-- `computeFollows` puts `q` into the follow set of `p` whenever `q` directly follows `p` in a marked word -/
+theorem C10_follow_sound (n : Node) (m : MWord) (h : Node.mlang n m) (p q : Nat) (ha : Adj m p q) (M : FollowMap) :
+    q ∈ (computeFollows M n).get p := follow_sound n m h p q ha M
+
+/-- **Every sentence is a path through the position automaton.** For every word of the language of a tree there is a
+    marking of it that starts in `firstPos`, ends in `lastPos`, steps only along the computed follow sets, and is empty
+    only if the tree is nullable: the automaton the direct route builds from these sets cannot reject a sentence. -/
+theorem C10_paths (n : Node) (w : List Rune) (h : Node.lang n w) :
+    ∃ m : MWord, m.map (·.2) = w ∧
+      (∀ a rest, m = a :: rest → a.1 ∈ n.firstPos) ∧
+      (∀ p q, Adj m p q → ∀ M, q ∈ (computeFollows M n).get p) ∧
+      (∀ init a, m = init ++ [a] → a.1 ∈ n.lastPos) ∧
+      (m = [] → n.nullable = true) := by
+  obtain ⟨m, hm, e⟩ := mlang_lift n w h
+  refine ⟨m, e, ?_, ?_, ?_, ?_⟩
+  · intro a rest hr; exact first_sound n a rest (hr ▸ hm)
+  · intro p q ha M; exact follow_sound n m hm p q ha M
+  · intro init a hr; exact last_sound n init a (hr ▸ hm)
+  · intro hr; exact (mlang_nil_iff n).mp (hr ▸ hm)
 
 /-- Non-vacuity / regression: the trees of `a?`, `(a*)b` … : a concatenation of nullable operands is nullable,
     `a{0}` (an empty concatenation) is nullable, `ab?` is not. -/
 example : (Node.concat [.alt [.empty, .char 97 1], .star (.char 98 2)]).nullable = true := by decide
 example : (quantNode (.char 97 0) (.rep 0 (some 0))).nullable = true := by decide
 example : (Node.concat [.char 97 1, .alt [.empty, .char 98 2]]).nullable = false := by decide
+/-- `(a|ab)#`: `a#` is a path 1 → 4 and `ab#` a path 2 → 3 → 4 through the follow map -/
+example : (computeFollows [] (.concat [.alt [.char 97 1, .concat [.char 97 2, .char 98 3]], .char 35 4])).get 1 = [4] ∧
+    (computeFollows [] (.concat [.alt [.char 97 1, .concat [.char 97 2, .char 98 3]], .char 35 4])).get 2 = [3] := by decide
 
 end Emerge.Props.C10
